@@ -31,7 +31,7 @@ class Lexer(object):
     ]
 
     t_ignore = " \t"
-    t_ignore_COMMENT = r'\#.*'
+    t_ignore_COMMENT = r'\#[^\r\n]*'
 
     t_COLON = ":"
     t_COMMA = ","
